@@ -46,6 +46,7 @@ def module_source():
                    '        except NameError:\n            out.append("<NameError>")\n        cb(i)\n    return out\n' % (n, n))
         out.append('def ne_%s():\n    def inner():\n        return %s\n    return inner()\n' % (n, n))
         out.append('def cl_%s():\n    class K:\n        v = %s\n    return K.v\n' % (n, n))
+        out.append('def cn_%s():\n    class K:\n        %s = %s\n    return K.%s\n' % (n, n, n, n))
         out.append('def ge_%s():\n    return [%s for _ in range(2)][1], (lambda: %s)()\n' % (n, n, n))
     for n in BUILTINS_ASSIGNED + BUILTINS_PLAIN:
         out.append('def ca_%s(x):\n    return %s(x)\n' % (n, n))
@@ -63,7 +64,7 @@ import builtins as _b
 class Sh:
     """shadow value for a builtin name"""
     def __init__(self, t): self.t = t
-    def __call__(self, *a): return ('Sh', self.t, len(a))
+    def __call__(self, *a): return ('Sh', self.t, a.__len__())
     def __vsig__(self): return ('Sh', self.t)
 
 _ALL = %(all)r
@@ -101,7 +102,7 @@ def _step(M, st):
         if how == 'setattr': return _obs(setattr, M, n, v)
         if how == 'dict': return _obs(d.__setitem__, n, v)
         if how == 'update': return _obs(d.update, {n: v})
-        if how == 'exec': return _obs(exec, '%%s = _v' %% n, d, {'_v': v}) if False else _obs(_exec_set, d, n, v)
+        if how == 'exec': return _obs(_exec_set, d, n, v)
         if how == 'inmod': return _obs(getattr(M, 'wr_' + n), v)
         if how == 'gupd': return _obs(M.upd, {n: v})
         if how == 'gl': return _obs(M.gl().__setitem__, n, v)
@@ -127,8 +128,9 @@ def _step(M, st):
         if kind == 'lp':
             subs = st[4]
             def cb(i):
-                for s in subs[i] if i < len(subs) else ():
-                    _step(M, s)
+                for sub in subs[i:i + 1]:
+                    for s in sub:
+                        _step(M, s)
             return _obs(getattr(M, 'lp_' + n), st[3], cb)
         if kind == 'ca':
             return _obs(getattr(M, 'ca_' + n), st[3])
@@ -187,7 +189,7 @@ def gen_read(rng, i, allow_builtins_module, focus=None):
             subs.append('[%s]' % ', '.join(gen_mutation(rng, i * 10 + j, allow_builtins_module, names=[n, n, rng.choice(ALLNAMES)])
                                            for _ in range(rng.choice([0, 1, 1, 2]))))
         return "('read', 'lp', %r, %d, [%s])" % (n, k, ', '.join(subs))
-    kind = rng.choice(['rd', 'rd', 'ne', 'cl', 'ge'])
+    kind = rng.choice(['rd', 'rd', 'ne', 'cl', 'cn', 'ge'])
     return "('read', %r, %r)" % (kind, n)
 
 
@@ -230,7 +232,7 @@ def reach_stats(histories):
 
 def describe_step(st):
     if st[0] == 'read':
-        return 'read:' + {'rd': 'plain', 'lp': 'loop-same-site', 'ne': 'nested-function', 'cl': 'class-body',
+        return 'read:' + {'rd': 'plain', 'lp': 'loop-same-site', 'ne': 'nested-function', 'cl': 'class-body', 'cn': 'class-body-same-name',
                           'ge': 'comprehension+lambda', 'ca': 'call'}[st[1]]
     if st[0] in ('set', 'del'):
         return '%s:%s' % (st[0], st[1])
@@ -249,14 +251,18 @@ def classify(cfg, history, exp, got):
         return 'length-differs'
     st = steps[idx]
     if st[0] != 'read':
-        return 'mutation-step-outcome:%s:%s' % (describe_step(st), name_class(st[2]) if len(st) > 2 else '-')
+        return 'mutation-step-outcome:%s:%s:%s->%s' % (describe_step(st), name_class(st[2]) if len(st) > 2 else '-',
+                                                     el[idx][1].strip("'"), gl[idx][1].strip("'"))
     n = st[2]
     # last mutation of this name before (or inside, for loops) the step
     last = 'none'
-    scan = list(steps[:idx])
-    if st[1] == 'lp':
-        for sub in st[4]:
-            scan.extend(sub)
+    scan = []
+    for s in steps[:idx + 1]:
+        if s[0] == 'read' and s[1] == 'lp':
+            for sub in s[4]:
+                scan.extend(sub)
+        elif s[0] != 'read':
+            scan.append(s)
     for s in scan:
         if s[0] in ('set', 'del') and s[2] == n:
             last = 'module-namespace'
